@@ -158,8 +158,22 @@ func c10Body(sc c10Scn, tracing bool, res *string) func(x *sched.Exec) {
 				c.End()
 			}
 		}
+		var tracers [3]trace.Tracer
 		ctx, sp := tr.Start(context.Background(), "s")
 		rs := sp.(*recordingSpan)
+		var selfRecording atomic.Int32
+		if sc.extra == "reentrant-self" {
+			// the processor kept the span from OnStart and touches it again while it is being delivered
+			p1.reenter = func() {
+				if sp.IsRecording() {
+					selfRecording.Add(1)
+				}
+				sp.End()
+				sp.SetName("renamed-from-OnEnd")
+				_, c := tr.Start(ctx, "child")
+				c.End()
+			}
+		}
 		if sc.atLimit {
 			sp.AddEvent("e0")
 			sp.AddLink(trace.Link{SpanContext: trace.NewSpanContext(trace.SpanContextConfig{TraceID: trace.TraceID{8}, SpanID: trace.SpanID{8}})})
@@ -233,6 +247,15 @@ func c10Body(sc c10Scn, tracing bool, res *string) func(x *sched.Exec) {
 						if op == "Child" {
 							c.End()
 						}
+					case "TracerA0", "TracerA1", "TracerB": // provider.Tracer from several threads: one instance per scope
+						i := map[string]int{"TracerA0": 0, "TracerA1": 1, "TracerB": 2}[op]
+						name := "a"
+						if op == "TracerB" {
+							name = "b"
+						}
+						tracers[i] = tp.Tracer(name)
+						_, c := tracers[i].Start(context.Background(), "child")
+						c.End()
 					case "NewRoot": // a span started under this span's context WITH WithNewRoot is nobody's child
 						_, c := tr.Start(ctx, "child", trace.WithNewRoot())
 						if psc := c.(ReadOnlySpan).Parent(); psc.IsValid() {
@@ -344,6 +367,12 @@ func c10Body(sc c10Scn, tracing bool, res *string) func(x *sched.Exec) {
 		if n := dupAttrs.Load(); n != 0 {
 			x.Fail("C10|getter-lists-a-key-twice", "ReadWriteSpan.Attributes() listed a key more than once (%d duplicates seen by a concurrent reader)", n)
 		}
+		if tracers[0] != nil && tracers[1] != nil && tracers[0] != tracers[1] {
+			x.Fail("C10|two-tracers-for-one-scope", "two concurrent TracerProvider.Tracer(\"a\") calls returned different tracers")
+		}
+		if selfRecording.Load() != 0 {
+			x.Fail("C10|recording-inside-OnEnd", "IsRecording reported true for the span that is being delivered to OnEnd")
+		}
 		tpShutdown := false
 		for _, t := range sc.threads {
 			for _, op := range t {
@@ -445,6 +474,8 @@ func c10Jobs(thorough, race bool) []c10Job {
 		{"P-sampler-reusing-its-attribute-slice", [][]string{{"Attr", "End"}, {"Span2"}}, false, "reuseSampler"},
 		{"Q-atlimit-attr-vs-attributes-of-another-span", [][]string{{"Attr", "End"}, {"Span2Same"}}, true, ""},
 		{"U-children-and-a-new-root-started-under-the-span", [][]string{{"Child", "NewRoot"}, {"NewRoot", "End"}}, false, ""},
+		{"V-tracer-lookups-from-three-threads", [][]string{{"TracerA0", "End"}, {"TracerA1"}, {"TracerB"}}, false, ""},
+		{"W-onend-touches-the-span-it-is-given", [][]string{{"End"}, {"IsRec", "Attr"}}, false, "reentrant-self"},
 		{"T-getters-of-the-live-span-vs-mutators", [][]string{{"Attr", "AttrDup"}, {"Getters", "Getters"}, {"Event", "EndTS"}}, false, ""},
 		{"R-onend-ends-a-span-itself-vs-unregister-of-another-processor", [][]string{{"End"}, {"Unreg2"}}, false, "reentrant"},
 		{"S-onend-ends-a-span-itself-vs-provider-shutdown", [][]string{{"End", "IsRec"}, {"ShutdownTP"}}, false, "reentrant"},
